@@ -45,8 +45,11 @@ func runC20(c *Ctx) {
 	// ---- R20a
 	nCb := 0
 	for _, fn := range c.RepoFuncs() {
-		if fn.Parent() == nil || !isContextFnSig(c, fn.Signature) || len(fn.Blocks) == 0 {
+		if !isContextFnSig(c, fn.Signature) || len(fn.Blocks) == 0 || fn.Synthetic != "" {
 			continue
+		}
+		if fn.Parent() == nil && fn.Signature.Recv() != nil {
+			continue // methods are not convertible to query.ContextFn as such
 		}
 		if strings.HasPrefix(fnPkgPath(fn), libsPath) {
 			continue
